@@ -5,8 +5,8 @@ from harness import common
 from harness.common import Result, hexs, unhext
 
 PROP = 'C14'
-LEAN_TARGETS = ['TxV.Props.C14']
-PROP_MODULES = ['TxV.Props.C14']
+LEAN_TARGETS = ['TxV.Props.C14', 'TxV.Props.C14b']
+PROP_MODULES = ['TxV.Props.C14', 'TxV.Props.C14b']
 AUDIT = 'Audit/C14.lean'
 ANCHORS = ['txtorcon/onion.py', 'txtorcon/controller.py']
 RULE = ('the full product version {2,3} x key {none, discard, bare blob, blob with matching type prefix, blob with foreign prefix, blob with CR/LF} '
@@ -15,7 +15,7 @@ RULE = ('the full product version {2,3} x key {none, discard, bare blob, blob wi
         'fake Tor; the service object is inspected when the reply has arrived, then remove() is called (for some cases twice, Tor refusing the first DEL_ONION). '
         'non-trivial = every cell (each exercises a different command); distinct = distinct cells')
 TRUSTED = ["the ADD_ONION argument grammar as transcribed in lean/TxV/Spec/AddOnion.lean", "the fake Tor's reply lines (ServiceID=, PrivateKey=, ClientAuth=)",
-           "_validate_ports' formatting of the port forms is re-stated by the harness (expected normalisation); available_tcp_port runs against a reactor double that numbers the free ports (40001, 40002, …) and, for half the cases, completes stopListening() on a later turn"]
+           "_validate_ports / _validate_ports_low_level are modelled (TxV.Ports; int() of a text for ASCII only; which addresses are local is the harness's judgement through ipaddress, handed to the model as a list); the property's reading of a request is re-stated independently by the harness (norm_ports); available_tcp_port runs against a reactor double that numbers the free ports (40001, 40002, …) and, for half the cases, completes stopListening() on a later turn"]
 ASSUMPTIONS = ["words of the request contain no space (Wordy): key blobs, targets, client names and tokens"]
 EXHAUSTIVE = {'quick': True, 'thorough': True}
 
@@ -29,18 +29,50 @@ AUTHS = {'noauth': None, 'basic0': [], 'basic1': ['alice'], 'basic2': [('alice',
 PORTSETS = {
     'int': [80], 'pair': [(80, 8080)], 'unix': [(80, 'unix:/tmp/sock')], 'addr': [(443, '127.0.0.1:9999')],
     'ints': [80, 443], 'int-pair-int': [80, (8080, 9000), 22],
+    # the other spellings `_validate_ports` takes: a numeric text as the local side, an address that is not local in a pair (only
+    # logged), localhost and signed / underscored numbers in a ready-made string
+    'pair-text-port': [(80, '8080')], 'pair-private-addr': [(80, '10.1.2.3:81')], 'str-localhost': ['80 localhost:8080'], 'str-plus': ['+8_0 127.0.0.1:81'],
+    # refused: two blanks, a public address in a ready-made string, two colons, no colon, a local side that is no port / socket / address
+    'bad-two-blanks': ['80  127.0.0.1:81'], 'bad-public-addr': ['80 8.8.8.8:81'], 'bad-two-colons': ['80 127.0.0.1:81:82'],
+    'bad-no-colon': ['80 8080'], 'bad-pair-public-addr': [(80, '8.8.8.8:81')], 'bad-ext': ['http 127.0.0.1:81'], 'bad-pair-local': [(80, 'nowhere')], 'bad-among-good': [(80, 8080), '80 8.8.8.8:81', 443],
     'str': ['80 127.0.0.1:1234'], 'samevirt': [(80, 8080), (80, 8081), '80 unix:/tmp/third'], 'strunix': ['443 unix:/x/y'], 'three': [(80, 8080), '443 127.0.0.1:4443', (22, 'unix:/s')],
 }
 
 
+def is_local_ip(ip):
+    import ipaddress
+    try:
+        a = ipaddress.ip_address(ip)
+    except ValueError:
+        return False
+    return a.is_private or a.is_loopback
+
+
 def norm_ports(ports):
+    """the property's reading of a port request: (public port as written, target) per entry, in order — or 'refused'"""
+    import re
     out = []
     n_free = 0
     for p in ports:
         if isinstance(p, tuple):
             r, l = p
+            if isinstance(l, str) and re.fullmatch(r'\d+', l):
+                l = int(l)
+            if isinstance(l, str) and not (l.startswith('unix:/') or l.count(':') == 1):
+                return 'refused'
+            if isinstance(l, str) and not l.startswith('unix:') and l.split(':')[0] != 'localhost' and not is_local_ip(l.split(':')[0]):
+                return 'refused'        # (the string made of the pair is checked like any other string)
             out.append((str(int(r)), '127.0.0.1:%d' % l if isinstance(l, int) else l))
         elif isinstance(p, str):
+            w = p.split(' ')
+            if len(w) != 2 or not re.fullmatch(r'[+-]?\d+(_\d+)*', w[0]) or ':' not in w[1]:
+                return 'refused'
+            if not w[1].startswith('unix:'):
+                if w[1].count(':') != 1:
+                    return 'refused'
+                ip = w[1].split(':')[0]
+                if ip != 'localhost' and not is_local_ip(ip):
+                    return 'refused'
             a, b = p.split(' ', 1)
             out.append((a, b))
         else:
@@ -172,7 +204,28 @@ def run_impl(c):
     return out
 
 
-def req_words(c):
+def ports_line(c):
+    """the request as the application wrote it, for the model of `_validate_ports` (`TxV.Ports`): bare ports, pairs, ready-made
+    strings; the free local ports the reactor double hands out; the addresses the harness takes to be local"""
+    toks = []
+    ips = {'127.0.0.1'}          # (what bare ports and port pairs are forwarded to)
+    for p in PORTSETS[c['ports']]:
+        if isinstance(p, tuple):
+            toks.append('p%d.%d' % p if isinstance(p[1], int) else 't%d.%s' % (p[0], hexs(p[1])))
+            if isinstance(p[1], str) and ':' in p[1]:
+                ips.add(p[1].split(':')[0])
+        elif isinstance(p, str):
+            toks.append('r' + hexs(p))
+            w = p.split(' ')
+            if len(w) == 2 and ':' in w[1]:
+                ips.add(w[1].split(':')[0])
+        else:
+            toks.append('b%d' % p)
+    local = sorted(ip for ip in ips if is_local_ip(ip))
+    return 'ports %s %s %s' % (','.join(str(40001 + i) for i in range(8)), ','.join(hexs(ip) for ip in local) or '-', ' '.join(toks))
+
+
+def req_words(c, ports_field=None):
     key = KEYS[c['key']]
     k = 'none' if key is None else 'discard' if key == 'DISCARD' else 'b' + hexs(key)
     a = AUTHS[c['auth']]
@@ -182,8 +235,9 @@ def req_words(c):
         auth = '-'
     else:
         auth = ','.join('%s.%s' % (hexs(x[0]), hexs(x[1])) if isinstance(x, tuple) else '%s.~' % hexs(x) for x in a)
-    ports = ','.join('%s.%s' % (hexs(v), hexs(t)) for v, t in norm_ports(PORTSETS[c['ports']]))
-    return '%d %s %d %d %s %s' % (c['version'], k, 1 if c['detach'] else 0, 1 if c['single_hop'] else 0, auth, ports)
+    if ports_field is None:
+        ports_field = ','.join('%s.%s' % (hexs(v), hexs(t)) for v, t in norm_ports(PORTSETS[c['ports']]))
+    return '%d %s %d %d %s %s' % (c['version'], k, 1 if c['detach'] else 0, 1 if c['single_hop'] else 0, auth, ports_field)
 
 
 def expected(c):
@@ -198,6 +252,8 @@ def expected(c):
         ks = key if ':' in key else ('RSA1024:' if ver == 2 else 'ED25519-V3:') + key
         if ver == 3 and not ks.startswith('ED25519-V3:'):
             return 'refused'
+    if norm_ports(PORTSETS[c['ports']]) == 'refused':
+        return 'refused'
     kt, kb = ks.split(':', 1)
     flags = (['Detach'] if c['detach'] else []) + (['DiscardPK'] if key == 'DISCARD' else []) + \
             (['BasicAuth'] if AUTHS[c['auth']] is not None else []) + (['NonAnonymous'] if c['single_hop'] else [])
@@ -221,10 +277,16 @@ def run_cases(cases, drv, tier):
     impls = [run_impl(c) for c in cases]
     outs = None
     if drv is not None:
+        # what the model of `_validate_ports` makes of each request: the (public, target) pairs the command model is given
+        pouts = drv.run([ports_line(c) for c in cases])
         lines = []
-        for c, im in zip(cases, impls):
-            rw = req_words(c)
-            lines.append('cmd ' + rw)
+        for c, im, po in zip(cases, impls, pouts):
+            if po.startswith('some'):
+                rw = req_words(c, po.split(' ', 1)[1])
+                lines.append('cmd ' + rw)
+            else:
+                rw = req_words(c, '-')
+                lines.append('parse -')         # (the ports are refused: no command, whatever the rest of the request says)
             cmd = im['add_onion'][0] if im['add_onion'] else None
             lines.append('parse ' + (hexs(cmd) if cmd else '-'))
             sid = im.get('sid')
@@ -249,6 +311,8 @@ def run_cases(cases, drv, tier):
         impl_view = None
         if outs is not None:
             mcmd, parsed, aft, dele = outs[4 * k:4 * k + 4]
+            if not pouts[k].startswith('some'):
+                mcmd = 'none'
             # correspondence: command text, object after the reply, DEL_ONION text
             model = {'cmd': unhext(mcmd.split(' ')[1]) if mcmd.startswith('some') else None}
             impl_m = {'cmd': im['add_onion'][0] if im['add_onion'] else None}
